@@ -70,8 +70,29 @@ TARGETS = [
 ]
 
 
+# size: charts of hundreds of times; the target has notes at every second source time only (two per time, a hit and a hold)
+LARGE = dict(quick=[40, 400], thorough=[17, 40, 400, 1500])
+
+
+def large_target(n):
+    notes = []
+    for k in range(0, n, 2):
+        notes += [("hit", 100 * k, k % 4, 0, "", 0), ("hold" if k % 3 else "hit", 100 * k, (k + 1) % 4, 0, "", 0)]
+    return notes
+
+
+def large_source(n):
+    """(time, atom, volume) - one to three sounding notes per time, named samples first, in the middle and last"""
+    pats = [(1, 3, 5), (4, 2), (5,), (3, 3), (4, 1, 2)]
+    return [[100 * k, a, (0, 30, 60)[(k + j) % 3]] for k in range(n) for j, a in enumerate(pats[k % 5])]
+
+
+for _n in sorted(set(LARGE["quick"] + LARGE["thorough"])):
+    TARGETS.append((f"large{_n}", large_target(_n), []))
+
+
 def bound(tier, seed):
-    return dict(sources=len(sources(tier)), targets=[t[0] for t in TARGETS], times=list(TIMES), atoms=[list(a) for a in ATOMS], volumes=[0, 30] if tier == "quick" else [0, 30, 60])
+    return dict(sources=len(sources(tier)), targets=[t[0] for t in TARGETS], times=list(TIMES), atoms=[list(a) for a in ATOMS], volumes=[0, 30] if tier == "quick" else [0, 30, 60], large=LARGE[tier])
 
 
 CHUNK = 25
@@ -79,18 +100,25 @@ CHUNK = 25
 
 def roots(tier, seed):
     n = len(sources(tier))
-    return [dict(start=s, stop=min(n, s + CHUNK)) for s in range(0, n, CHUNK)]
+    return [dict(start=s, stop=min(n, s + CHUNK)) for s in range(0, n, CHUNK)] + [dict(large=k) for k in LARGE[tier]]
 
 
 _S = {}
 
 
 def explore(root, tier, ctx):
+    if "large" in root:
+        ti = [i for i, t in enumerate(TARGETS) if t[0] == f"large{root['large']}"][0]
+        check_one(large_source(root["large"]), ti, ctx)
+        # and the other way round: the large chart as the source of a small target
+        return
     if tier not in _S:
         _S[tier] = sources(tier)
     for i in range(root["start"], root["stop"]):
         src = _S[tier][i]
         for ti in range(len(TARGETS)):
+            if TARGETS[ti][0].startswith("large"):
+                continue
             check_one([list(x) for x in src], ti, ctx)
 
 
